@@ -955,6 +955,10 @@ impl State {
         match x {
             Xfn::Native(x) => x.0(self),
             Xfn::Interp(x) => {
+                // Run the immediate word itself and nothing else: the code compiled so far for the
+                // source being built is not executed at build time (it would run a second time when
+                // the source is run after `compile`), and the instruction pointer stays where it was.
+                let depth = self.return_stack.len();
                 let return_to = self.ip();
                 self.push_return(Frame {
                     fn_addr: x,
@@ -962,7 +966,14 @@ impl State {
                     locals: Default::default(),
                 })?;
                 self.set_ip(x);
-                self.run()
+                self.clear_last_error();
+                while self.return_stack.len() > depth && self.is_running() {
+                    self.fetch_and_run().map_err(|e| {
+                        self.set_runtime_err_location(&e);
+                        e
+                    })?;
+                }
+                OK
             }
         }
     }
